@@ -102,3 +102,20 @@ Section ExecVars.
     unfold cmd_env in Hok. exact (env_asks_ok _ _ 0 Hok i w Hi Hlt).
   Qed.
 End ExecVars.
+
+(* ---- analyze(): the text before parsing ---- *)
+Lemma analyze_text_failclosed simple astr mredir cdres injrisk rulematch parse c s :
+  (analyze_prelude s = None \/ (exists t, analyze_prelude s = Some t /\ (parse t = None \/ parse t = Some []))) ->
+  analyze_text simple astr mredir cdres injrisk rulematch parse c s = Ask.
+Proof.
+  unfold analyze_text. intros [H|[t [H [Hp|Hp]]]]; rewrite H; [reflexivity| |]; rewrite Hp; reflexivity.
+Qed.
+
+(* what the prelude hands to the parser has no white space other than blanks and newlines, and is not blank *)
+Lemma analyze_prelude_text s t : analyze_prelude s = Some t ->
+  forallb py_space t = false /\ existsb (fun ch => py_space ch && negb (bash_blank ch)) t = false.
+Proof.
+  unfold analyze_prelude. destruct (forallb py_space (strip_blanks s)) eqn:E1; [discriminate|].
+  destruct (existsb (fun ch => py_space ch && negb (bash_blank ch)) (strip_blanks s)) eqn:E2; [discriminate|].
+  intro H. injection H as <-. split; assumption.
+Qed.
